@@ -84,7 +84,8 @@ theorem SendInv.expire {s : S} (hs : SendInv s) : SendInv { s with expired := tr
 theorem sendInv_rdFrame : RdFrame SendInv where
   fields _ _ _ _ _ _ _ hs := ⟨hs.stream, hs.nodrop, hs.prog, hs.armed, hs.nowr, hs.emp⟩
   ev _ _ _ hs := ⟨hs.stream, hs.nodrop, hs.prog, hs.armed, hs.nowr, hs.emp⟩
-  closed s v hs _ _ := by
+  eofMark _ hs := ⟨hs.stream, hs.nodrop, hs.prog, hs.armed, hs.nowr, hs.emp⟩
+  closed s v hs := by
     refine socketClosed_of sendInv_stable ?_ (fun s _ _ hs => sendInv_hist s _ hs) s v hs
     intro s hs
     exact (sendInv_disable s hs).expire
@@ -123,7 +124,7 @@ theorem sendInv_initFd (s : S) (n : Bool) (ev : Nat) (hs : SendInv s) : SendInv 
 
 theorem sendInv_frame : StepFrame SendInv (fun _ => True) where
   stable := sendInv_stable
-  onRead := onRead_of_frame sendInv_stable sendInv_rdFrame
+  onRead s hs _ := onRead_of_frame sendInv_stable sendInv_rdFrame s hs
   onWrite := sendInv_onWrite
   initFd := sendInv_initFd
   connFlag _ hs := ⟨hs.stream, hs.nodrop, hs.prog, hs.armed, hs.nowr, hs.emp⟩
@@ -179,7 +180,8 @@ theorem compInv_rdFrame : RdFrame CompInv where
   fields s a b c d e f hs := ⟨sendInv_rdFrame.fields s a b c d e f hs.1, hs.2⟩
   ev s e he hs := ⟨sendInv_rdFrame.ev s e he hs.1,
     completeOk_append _ _ hs.2 (fun n hn => by subst hn; simp [Ev.isRead] at he)⟩
-  closed s v hs _ _ := by
+  eofMark s hs := ⟨sendInv_rdFrame.eofMark s hs.1, hs.2⟩
+  closed s v hs := by
     refine socketClosed_of compInv_stable ?_ ?_ s v hs
     · intro s hs
       exact ⟨(sendInv_disable s hs.1).expire, by
@@ -218,7 +220,7 @@ theorem initFd_hist (s : S) (n : Bool) (ev : Nat) : (initFd s n ev).1.hist = s.h
 
 theorem compInv_frame : StepFrame CompInv (fun _ => True) where
   stable := compInv_stable
-  onRead := onRead_of_frame compInv_stable compInv_rdFrame
+  onRead s hs _ := onRead_of_frame compInv_stable compInv_rdFrame s hs
   onWrite := compInv_onWrite
   initFd s n ev hs := ⟨sendInv_initFd s n ev hs.1, by rw [initFd_hist]; exact hs.2⟩
   connFlag s hs := ⟨sendInv_frame.connFlag s hs.1, hs.2⟩
